@@ -22,6 +22,7 @@ import (
 
 	admissionv1 "k8s.io/api/admission/v1"
 	corev1 "k8s.io/api/core/v1"
+	"k8s.io/apimachinery/pkg/api/resource"
 	"k8s.io/apimachinery/pkg/api/validation"
 	"k8s.io/apimachinery/pkg/util/validation/field"
 	"sigs.k8s.io/controller-runtime/pkg/webhook/admission"
@@ -120,7 +121,9 @@ func validateResources(pod *corev1.Pod) field.ErrorList {
 		cpu := requests[corev1.ResourceCPU]
 		if cpu.IsZero() {
 			allErrs = append(allErrs, field.Required(field.NewPath("pod.spec.containers[*].resources.requests"), "LSR Pod must declare the requested CPUs"))
-		} else if cpu.Value()*1000 != cpu.MilliValue() {
+		} else if cpu.Cmp(*resource.NewQuantity(cpu.Value(), resource.DecimalSI)) != 0 {
+			// Value() rounds up, so the request is a whole number of CPUs iff it equals its own Value();
+			// comparing Value()*1000 with MilliValue() (both rounded up) let e.g. 999500u pass.
 			allErrs = append(allErrs, field.Invalid(field.NewPath("pod.spec.containers[*].resources.requests"), cpu.String(), "the requested CPUs of LSR Pod must be integer"))
 		}
 	}
